@@ -214,3 +214,88 @@ step_harness!(c04_q_step_setters, 13, false, false, |a| {
         _ => (LineInstruction::UnknownStandard1(DwLns(a as u8), a), MIns::Unknown),
     }
 });
+
+// ---------------------------------------------------------------------------------------------------------------------
+// (b) instruction decoding glue: one query per opcode (concrete dispatch bytes, symbolic operands through the real LEB /
+// sized readers): `LineInstructions::next_instruction` yields the instruction DWARF 5 §6.2.5 assigns to the bytes.
+// This is the reader half C13's per-kind encodings compose with.
+macro_rules! decode_harness {
+    ($name:ident, [$($pre:expr),+], |$b:ident, $got:ident| $body:block) => {
+        #[kani::proof]
+        #[kani::unwind(16)]
+        fn $name() {
+            let mut buf = [0u8; HDR_LEN + 14];
+            v4_header(&mut buf, HDR_LEN + 14, 13, None);
+            let data: [u8; 14] = kani::any();
+            let mut i = 0;
+            while i < 14 {
+                buf[HDR_LEN + i] = data[i];
+                i += 1;
+            }
+            let pre = [$($pre),+];
+            let mut j = 0;
+            while j < pre.len() {
+                buf[HDR_LEN + j] = pre[j];
+                j += 1;
+            }
+            let dl = DebugLine::new(&buf, LittleEndian);
+            let Ok(prog) = dl.program(DebugLineOffset(0), 8, None, None) else { return };
+            let header = prog.header();
+            let mut it = header.instructions();
+            let $got = it.next_instruction(header);
+            let $b = &buf[HDR_LEN..];
+            $body;
+            kani::cover!(true);
+        }
+    };
+}
+macro_rules! decode_uleb {
+    ($name:ident, $op:expr, $variant:ident) => {
+        decode_harness!($name, [$op], |b, got| {
+            let r = ref_uleb(&b[1..]);
+            match got {
+                Ok(Some(LineInstruction::$variant(v))) => {
+                    assert!(matches!(r, Some((w, _)) if w == v as u128), "operand differs from the ULEB128 value");
+                }
+                Ok(_) => panic!("wrong instruction kind"),
+                Err(_) => assert!(!matches!(r, Some((w, n)) if w <= u64::MAX as u128 && n <= 9), "well-formed operand rejected"),
+            }
+        });
+    };
+}
+decode_uleb!(c04_t_decode_advance_pc, 2u8, AdvancePc);
+decode_uleb!(c04_t_decode_set_file, 4u8, SetFile);
+decode_uleb!(c04_t_decode_set_column, 5u8, SetColumn);
+decode_uleb!(c04_t_decode_set_isa, 12u8, SetIsa);
+decode_harness!(c04_t_decode_advance_line, [3u8], |b, got| {
+    let r = ref_sleb(&b[1..]);
+    match got {
+        Ok(Some(LineInstruction::AdvanceLine(v))) => assert!(matches!(r, Some((w, _)) if w == v as i128), "operand differs from the SLEB128 value"),
+        Ok(_) => panic!("wrong instruction kind"),
+        Err(_) => assert!(!matches!(r, Some((w, n)) if w >= i64::MIN as i128 && w <= i64::MAX as i128 && n <= 9), "well-formed operand rejected"),
+    }
+});
+decode_harness!(c04_t_decode_fixed_advance_pc, [9u8], |b, got| {
+    let want = b[1] as u16 | (b[2] as u16) << 8;
+    assert!(matches!(got, Ok(Some(LineInstruction::FixedAddPc(v))) if v == want));
+});
+decode_harness!(c04_t_decode_copy, [1u8], |b, got| { assert!(matches!(got, Ok(Some(LineInstruction::Copy)))); });
+decode_harness!(c04_t_decode_negate_stmt, [6u8], |b, got| { assert!(matches!(got, Ok(Some(LineInstruction::NegateStatement)))); });
+decode_harness!(c04_t_decode_basic_block, [7u8], |b, got| { assert!(matches!(got, Ok(Some(LineInstruction::SetBasicBlock)))); });
+decode_harness!(c04_t_decode_const_add_pc, [8u8], |b, got| { assert!(matches!(got, Ok(Some(LineInstruction::ConstAddPc)))); });
+decode_harness!(c04_t_decode_prologue_end, [10u8], |b, got| { assert!(matches!(got, Ok(Some(LineInstruction::SetPrologueEnd)))); });
+decode_harness!(c04_t_decode_epilogue_begin, [11u8], |b, got| { assert!(matches!(got, Ok(Some(LineInstruction::SetEpilogueBegin)))); });
+decode_harness!(c04_t_decode_special_13, [13u8], |b, got| { assert!(matches!(got, Ok(Some(LineInstruction::Special(13))))); });
+decode_harness!(c04_t_decode_special_255, [255u8], |b, got| { assert!(matches!(got, Ok(Some(LineInstruction::Special(255))))); });
+decode_harness!(c04_t_decode_end_sequence, [0u8, 1u8, 1u8], |b, got| { assert!(matches!(got, Ok(Some(LineInstruction::EndSequence)))); });
+decode_harness!(c04_t_decode_set_address, [0u8, 9u8, 2u8], |b, got| {
+    let want = ref_uint(&b[3..], 8, false) as u64;
+    assert!(matches!(got, Ok(Some(LineInstruction::SetAddress(a))) if a == want));
+});
+decode_harness!(c04_t_decode_set_discriminator_1, [0u8, 2u8, 4u8], |b, got| {
+    match got {
+        Ok(Some(LineInstruction::SetDiscriminator(d))) => assert!(b[3] & 0x80 == 0 && d == b[3] as u64),
+        Ok(_) => panic!("wrong instruction kind"),
+        Err(_) => assert!(b[3] & 0x80 != 0, "well-formed discriminator rejected"),
+    }
+});
